@@ -11,7 +11,7 @@ import time
 from common import REPO, WORK, KANI_DIR, REPLAY_DIR, eprint
 
 CHECK_RE = re.compile(
-    r"^Check (\d+): (\S+)\n\t - Status: (\S+)\n\t - Description: \"(.*?)\"\n\t - Location: (.*?)$",
+    r"^Check (\d+): ([^\n]+)\n\t - Status: (\S+)\n\t - Description: \"(.*?)\"\n\t - Location: (.*?)$",
     re.M | re.S,
 )
 
@@ -77,10 +77,14 @@ def parse_result(path):
             soft.append(dict(check=name, description=desc1, location=" ".join(loc.split()), kind="undetermined"))
     res["failed"] = viol + soft
     vm = re.search(r"VERIFICATION:- (\w+)", txt)
+    if "CBMC timed out" in txt:
+        res["reason"] = "solver timeout (CBMC timed out within the per-harness cap)"
+        return res
+    if "CBMC failed" in txt and not checks:
+        res["reason"] = "CBMC failed without results (out of memory / killed / internal error)"
+        return res
     if not vm:
         res["reason"] = "no VERIFICATION line (timeout / out of memory / crash)"
-        if "TIMEOUT" in txt.upper() or "timed out" in txt:
-            res["reason"] = "harness timeout"
         return res
     if viol:
         res["verdict"] = "fail"
